@@ -18,12 +18,12 @@ RULE = ("world kind in {SpaceWorld, DiscreteWorld, LineWorld, GridWorld}, extent
         "signs); integers in grid worlds, dyadic k/8 in continuous worlds; non-trivial = >=2 agents in a non-cubic world "
         "and >=1 move crossing an edge; distinct = (kind, extents class, wrap, sequence of op kinds with accept/reject "
         "and edge-crossing flags)"
-        "; also: worlds that are not model.environment, wrap_env reassigned in mid-history, coordinates left to their documented defaults, model lifecycle ops")
+        "; also: worlds that are not model.environment, wrap_env reassigned in mid-history, coordinates left to their documented defaults, model lifecycle ops, integer moves of 2**31..2**64 in grid worlds repeated on one axis")
 COMPONENTS = {"real": ["ECAgent.Environments.SpaceWorld.add_agent / remove_agent / move / move_to", "DiscreteWorld / LineWorld / "
                        "GridWorld constructors", "PositionComponent"],
               "stub": ["agents are plain ECAgent agents created by the harness"]}
 PROBES = ["multi_lap_wrap", "negative_wrap", "clamp_both_sides_one_move", "placement_on_hi", "zero_extent_axis",
-          "reject.oob", "reject.move_to_oob", "reject.no_position", "move_to_accepted", "continuous_world", "grid_world", "model_lifecycle_op", "wrap_mode_switched", "defaults_used_for_omitted_coordinates"]
+          "reject.oob", "reject.move_to_oob", "reject.no_position", "move_to_accepted", "continuous_world", "grid_world", "model_lifecycle_op", "wrap_mode_switched", "defaults_used_for_omitted_coordinates", "huge_integer_move_in_grid"]
 TECHNIQUE = "deterministic simulation: seeded placement/move histories with injected rejected operations vs an exact (dyadic) arithmetic reference, containment invariant after every op"
 LEVEL_TEXT = ("Seeded search over world configurations and move histories; after every operation every resident agent's "
               "coordinates must equal the exact reference (modular in wrapping worlds, saturating otherwise) and lie inside "
@@ -65,6 +65,19 @@ def generate(rng, tier):
             ops.append({"op": "lifecycle", "k": k, "what": rng.choice(["step", "complete"])})
         else:
             ops.append({"op": "flip_wrap", "k": k})
+    if ref.den == 1 and rng.random() < 0.25:
+        # grid worlds: astronomically large integer moves (exact in integer arithmetic), twice in a row on the same axis -
+        # the second one starts from whatever object the first one stored
+        for _ in range(rng.randint(1, 2)):
+            k = rng.randrange(n)
+            ax = rng.randrange(3)
+            sign = rng.choice([1, 1, -1])
+            at = rng.randint(0, len(ops))
+            for j in range(rng.choice([2, 2, 3])):
+                big = rng.choice([2 ** 63 - 1, 2 ** 63 - 1, 2 ** 63, 2 ** 64 + 3, 2 ** 63 - 1 - rng.randint(0, 40), 2 ** 31, 2 ** 32 + 1])
+                d = [0, 0, 0]
+                d[ax] = sign * big
+                ops.insert(at + j, {"op": "move", "k": k, "d": d, "sparse": rng.random() < 0.3, "huge": True})
     return {"world": world, "n": n, "ops": ops}
 
 
@@ -152,6 +165,8 @@ def execute(sc, ctx):
                 shape.append(["move", "rej"])
             else:
                 old = pos[k]
+                if op.get("huge"):
+                    ctx.probe("huge_integer_move_in_grid")
                 base = [old[ax] if old[ax] is not None else 0 for ax in range(3)]
                 if op.get("sparse"):
                     ctx.probe("defaults_used_for_omitted_coordinates")
